@@ -47,6 +47,20 @@ fn mutate_leaf(rng: &mut Rng, leaf: &Value, siblings: &[Value]) -> Vec<(&'static
         LeafKind::Other => match leaf {
             Value::String(s) => {
                 out.push(("string-append", json!(format!("{}x", s))));
+                // other spellings that a lenient reading could identify with the original: letter case exchanged,
+                // the hex spelling of the text's bytes, the text that a hex spelling decodes to
+                let flipped: String = s.chars().map(|c| if c.is_ascii_lowercase() { c.to_ascii_uppercase() } else { c.to_ascii_lowercase() }).collect();
+                if &flipped != s {
+                    out.push(("string-case-exchanged", json!(flipped)));
+                }
+                if !s.is_empty() {
+                    out.push(("string-hex-spelling", json!(hex::encode(s.as_bytes()))));
+                }
+                if let Some(t) = hex::decode(s).ok().and_then(|b| String::from_utf8(b).ok()) {
+                    if !t.is_empty() {
+                        out.push(("string-hex-decoded", json!(t)));
+                    }
+                }
                 if !s.is_empty() {
                     out.push(("string-truncate", json!(s[..s.len() - s.chars().last().unwrap().len_utf8()].to_string())));
                 }
@@ -348,6 +362,12 @@ fn c04_suite<S: ShortGroupSignatureScheme>(em: &mut Emitter, base: &mut Rng, sui
         let mut scn = Scn::<S>::build(rng, &mix);
         if k % 2 == 0 && scn.nonce.is_empty() {
             scn.nonce = rng.bytes(16);
+        }
+        // schema ids as `PresentationSchema::new` makes them (hex of 16 random bytes) and ids that spell printable text in hex
+        if k % 3 == 1 {
+            scn.schema.id = hex::encode(rng.bytes(16));
+        } else if k % 3 == 2 {
+            scn.schema.id = hex::encode(format!("req-{}", rng.below(1000)).as_bytes());
         }
         let p = match scn.create() {
             Out::Ok(p) => p,
